@@ -10,25 +10,16 @@
    one byte, so None of the translation never means "out of fuel" here (for strings below 2^62 bytes). *)
 From Coq Require Import ZArith NArith Bool Lia ZifyBool ZifyNat ZifyN List.
 From Soy Require Import Model.Bytes Model.Num Model.Utf8 Model.NumLit Generated.Tables Model.Quote
-  Proofs.SourceTieBase Proofs.SourceTieState Proofs.SourceTieQuote.
+  Proofs.SourceTieBase Proofs.SourceTieState Proofs.SourceTieUtf8 Proofs.SourceTieQuote.
 Import ListNotations.
 Open Scope N_scope.
 
-Definition st_dec (s : bstr) : Z * Z := let '(r, w) := decode_rune s in (Z.of_N r, Z.of_nat w).
 Definition st_pint (s : bstr) (base bits : Z) : Z * bool :=
   match parse_int (Z.to_N base) s with Some z => (z, false) | None => (0%Z, true) end.
 Definition st_rune (z : Z) : N := match z with Zneg _ => rune_error | _ => Z.to_N z end.
 Definition st_string_runes (l : list Z) : bstr := string_of_runes (map st_rune l).
 
 (* ---- facts about the library models ---- *)
-Lemma st_decode_width (s : bstr) : s <> [] -> (1 <= snd (decode_rune s) <= length s)%nat.
-Proof.
-  intros Hne. destruct s as [|b0 s]; [congruence|]. unfold decode_rune, is_cont, in_range, rune_error.
-  destruct s as [|b1 [|b2 [|b3 s]]];
-  repeat match goal with |- context [if ?c then _ else _] => destruct c eqn:? end;
-  cbn [fst snd length]; lia.
-Qed.
-
 Lemma st_digits_bound (s : bstr) : forall acc n, digits_val 16 s acc = Some n -> n < (acc + 1) * 16 ^ N.of_nat (length s).
 Proof.
   induction s as [|c r IH]; intros acc n H; cbn [digits_val length] in *.
@@ -57,28 +48,6 @@ Qed.
 
 Lemma st_rune_of_N (r : N) : st_rune (Z.of_N r) = r.
 Proof. destruct r; reflexivity. Qed.
-
-Lemma st_go_slice_drop (s : bstr) (i : nat) : (i <= length s)%nat -> go_slice s (Z.of_nat i) (go_len s) = Some (drop i s).
-Proof.
-  intros H. unfold go_slice, go_len. replace (orb _ _) with false by lia. f_equal.
-  rewrite Nat2Z.id. replace (Z.to_nat (Z.of_nat (length s) - Z.of_nat i)) with (length s - i)%nat by lia.
-  revert i H. induction s as [|c s IH]; intros [|i] H; cbn [drop length] in *; try reflexivity; try lia.
-  - cbn [Nat.sub take]. f_equal. specialize (IH 0%nat ltac:(lia)). cbn [drop] in IH. rewrite Nat.sub_0_r in IH. exact IH.
-  - apply IH. lia.
-Qed.
-
-Lemma st_drop_length (i : nat) (s : bstr) : length (drop i s) = (length s - i)%nat.
-Proof. revert s. induction i as [|i IH]; intros [|c s]; cbn [drop length]; try lia. apply IH. Qed.
-
-Lemma st_drop_drop (i j : nat) (s : bstr) : drop j (drop i s) = drop (i + j) s.
-Proof. revert s. induction i as [|i IH]; intros s; [reflexivity|]. destruct s as [|c s]; [destruct j; reflexivity|]. cbn [drop Nat.add]. apply IH. Qed.
-
-Lemma st_go_slice_take_drop (s : bstr) (i k : nat) :
-  (i + k <= length s)%nat -> go_slice s (Z.of_nat i) (Z.of_nat i + Z.of_nat k)%Z = Some (take k (drop i s)).
-Proof.
-  intros H. unfold go_slice, go_len. replace (orb _ _) with false by lia. f_equal.
-  rewrite Nat2Z.id. replace (Z.to_nat (Z.of_nat i + Z.of_nat k - Z.of_nat i)) with k by lia. reflexivity.
-Qed.
 
 (* ---- the decoding loop ---- *)
 (* [res] is Go's result slice, [acc] the model's accumulator (reversed, negative runes already replaced) *)
